@@ -24,6 +24,7 @@ def run(ctx):
     ctx.each(r14c, ctx, repo)
     ctx.each(r14d, ctx, repo)
     ctx.each(r14e, ctx, repo)
+    ctx.each(r14f, ctx, repo)
 
 
 def _derives_from(fi, name, param, depth=0):
@@ -260,3 +261,56 @@ def thorough(ctx):
 
     sweeps.pyflakes_crossref(ctx, ctx.repo)
     ctx.note("R14a", "cross-reference: pyflakes reports `tolerance` in constrain_sum_bounded as assigned but never used; the acceptance test actually applied is np.isclose (rtol 1e-5), looser than the stated 1e-6. Not armed: no returned allocation off by more than 1e-6 relative has been exhibited")
+
+
+MUTABLE_CTORS = {"dict", "list", "set", "sc.odict", "sc.objdict", "defaultdict", "OrderedDict", "np.zeros", "np.ones", "np.empty", "np.array", "np.full"}
+
+
+def _is_mutable_value(e):
+    if isinstance(e, (ast.Dict, ast.List, ast.Set, ast.ListComp, ast.DictComp, ast.SetComp)):
+        return True
+    return isinstance(e, ast.Call) and ast.unparse(e.func) in MUTABLE_CTORS
+
+
+def shared_mutable_sites(fi):
+    """dict.fromkeys(keys, <mutable>)  and  [<mutable>] * n : one object shared by every key / position"""
+    out = []
+    for c in own_nodes(fi.node):
+        if isinstance(c, ast.Call) and isinstance(c.func, ast.Attribute) and c.func.attr == "fromkeys" and len(c.args) == 2 and _is_mutable_value(c.args[1]):
+            out.append((c, "every key of `%s` shares the one `%s` object" % (ast.unparse(c)[:60], ast.unparse(c.args[1]))))
+        if isinstance(c, ast.BinOp) and isinstance(c.op, ast.Mult):
+            for a in (c.left, c.right):
+                if isinstance(a, ast.List) and len(a.elts) == 1 and _is_mutable_value(a.elts[0]):
+                    out.append((c, "every position of `%s` shares the one `%s` object" % (ast.unparse(c)[:60], ast.unparse(a.elts[0]))))
+    return out
+
+
+def r14f(ctx, repo):
+    ctx.rule("R14f", "per-year tables of the total-spend constraint are per year: in get_hard_constraint each table indexed by year gets a fresh container for every year inside the loop over years (no dict.fromkeys(years, <mutable>) / [<mutable>] * n sharing one object), so the bounds checked for year t are the bounds of year t")
+    fi = repo.func("optimization", "TotalSpendConstraint.get_hard_constraint")
+    n = 0
+    for f in repo.module("optimization").all_functions():
+        for c, why in shared_mutable_sites(f):
+            n += 1
+            ctx.fail("R14f", f, enclosing_stmt(c), "%s: what is stored for one year (or program) is stored for all of them - the rescaling then checks an allocation against another year's bounds and can return one that violates its own" % why)
+    # per-year containers: X[t] = <fresh>  precedes  X[t][k] = ...  inside the loop over t
+    loops = [l for l in own_nodes(fi.node) if isinstance(l, ast.For) and isinstance(l.target, (ast.Name, ast.Tuple))]
+    nested = {}
+    for s in own_nodes(fi.node):
+        if isinstance(s, ast.Assign) and isinstance(s.targets[0], ast.Subscript) and isinstance(s.targets[0].value, ast.Subscript):
+            inner = s.targets[0].value  # X[t]
+            if isinstance(inner.slice, ast.Name):
+                nested.setdefault((ast.unparse(inner.value), inner.slice.id), []).append(s)
+    for (tab, t), stores in sorted(nested.items()):
+        lp = [l for l in K.enclosing_loops(stores[0]) if t in {x.id for x in ast.walk(l.target) if isinstance(x, ast.Name)}]
+        if not lp:
+            continue
+        n += 1
+        fresh = [s for s in ast.walk(lp[0]) if isinstance(s, ast.Assign) and ast.unparse(s.targets[0]) == "%s[%s]" % (tab, t) and _is_mutable_value(s.value) and not any(isinstance(x, ast.Name) for x in ast.walk(s.value) if isinstance(x, ast.Name) and x.id not in ("dict", "list", "set", "sc", "np", "defaultdict"))]
+        cfg = K.cfg(repo, fi)
+        ok = bool(fresh) and all(fs.lineno < st.lineno for fs in fresh[:1] for st in stores)
+        if ok:
+            head = cfg.ids(lp[0])
+            ok = not any(cfg.path_exists(head, cfg.ids(st), avoid_ids=[i for fs in fresh for i in cfg.ids(fs)]) for st in stores)
+        ctx.check(ok, "R14f", fi, stores[0], "`%s[%s]` is a fresh container created in the loop over `%s` before it is filled" % (tab, t, t), "`%s` fills `%s[%s]` but no fresh container is assigned to `%s[%s]` earlier in the same iteration over `%s`: the entries of different years end up in one shared object (or the previous year's), so a year is checked against bounds that are not its own" % (norm(stores[0])[:60], tab, t, tab, t, t), stmt_text="per-year-container:%s" % tab)
+    ctx.require(n >= 1, "R14f: no per-year table found in get_hard_constraint")
